@@ -16,6 +16,11 @@
 #endif
 static void *vp_freed[4]; static int vp_nfreed;
 void vp_free(void *p) { if (vp_nfreed < 4) vp_freed[vp_nfreed] = p; vp_nfreed++; }
+/* calloc stub: CBMC models calloc(n, size) with a symbolic n as a byte array of symbolic size (heap_insert's
+ * `parents` scratch array: out of memory at 8 GB for 2 tasks).  The stub hands out zeroed STATIC TYPED storage:
+ * one parsec_heap_t for heap_create, one pointer array for the scratch array (at most one of each per operation). */
+static void *vp_ptrarr[8]; static long vp_heapstore[16]; static int vp_ncalloc_arr, vp_ncalloc_heap, vp_calloc_bad;
+void *vp_calloc(size_t n, size_t size);
 
 /* parsec_task_t carries locals[MAX_LOCAL_COUNT] and data[MAX_PARAM_COUNT] (20 each, 984 bytes); the units under test
  * never touch them, but CBMC copies the whole struct on every write through a symbolic task pointer
@@ -32,6 +37,17 @@ void vp_free(void *p) { if (vp_nfreed < 4) vp_freed[vp_nfreed] = p; vp_nfreed++;
 #endif
 #define NT (SMAX + 1)           /* task objects T1..T(SMAX), plus one spare for insert */
 
+void *vp_calloc(size_t n, size_t size)
+{
+    if (n == 1 && size == sizeof(parsec_heap_t)) {
+        if (sizeof(parsec_heap_t) > sizeof(vp_heapstore) || vp_ncalloc_heap++) vp_calloc_bad = 1;
+        for (unsigned i = 0; i < sizeof(vp_heapstore) / sizeof(long); i++) vp_heapstore[i] = 0;
+        return (void*)vp_heapstore;
+    }
+    if (size != sizeof(void*) || n > 8 || vp_ncalloc_arr++) vp_calloc_bad = 1;
+    for (int i = 0; i < 8; i++) vp_ptrarr[i] = 0;
+    return (void*)vp_ptrarr;
+}
 static parsec_task_t T1, T2, T3, T4, T5, T6, T7, T8;
 static parsec_heap_t H;
 static parsec_task_t *TP(int k) { return k==1?&T1:k==2?&T2:k==3?&T3:k==4?&T4:k==5?&T5:k==6?&T6:k==7?&T7:k==8?&T8:(parsec_task_t*)0; }
@@ -180,6 +196,7 @@ int main(void)
 #else
 #error "OP"
 #endif
+    VASSERTM(!vp_calloc_bad, "harness: calloc stub used within its limits (one heap header, one scratch array of <= 8 pointers)");
     if (w1) VWITNESS(W1);
 #ifdef W2
     if (w2) VWITNESS(W2);
